@@ -604,6 +604,23 @@ fn run(ctx: &mut Ctx) {
     pipeline_lattice(ctx, &mut idx);
     wide_tables(ctx, &mut idx);
     function_space_tables(ctx, &mut idx);
+    // stray characters (backslash, $, @, ;, ~) directly in front of names: they separate tokens
+    // and mean nothing, on every channel alike
+    for text in ["nb & -a | \\nb & c", "\\ta | t & \\tb", "n\\n & -n1", "a \\\\ b | \\", "$a & @b | ;c", "~a | a~b", "a\\tb & \\rc"] {
+        let mut outs = vec![];
+        idx += 1;
+        let mine = ctx.mine(idx);
+        for ch in [Channel::Evaluate, Channel::File, Channel::Stdin] {
+            let mut inv = base(text, vec!["-t".into()]);
+            inv.channel = ch;
+            outs.push(if mine { check_run(ctx, &inv, Mode::Table(Filter::Any)) } else { None });
+        }
+        if let (Some(x), Some(y), Some(z)) = (&outs[0], &outs[1], &outs[2]) {
+            if x != y || x != z {
+                ctx.violation(format!("{TAG} channels (stray characters): {text}"), "stdout differs between --evaluate, file and stdin".into(), case(&base(text, vec!["-t".into()]), Mode::Table(Filter::Any)));
+            }
+        }
+    }
     // large inputs on the file and stdin channels: 4 KiB .. 2 MiB of blanks, newlines or one
     // long comment between (or behind) the tokens never change the table
     for k in [12u32, 16, 20, 21] {
